@@ -192,9 +192,22 @@ class Rdv (object):
     elif form == "tuple": d = tuple(d)
     elif form == "str" and len(d) == 1: d = d[0]
     w["declared"] = True
+    # the callback as a plain function, a functools.partial, or an object with
+    # __call__ (the latter two have no __name__ and no source location)
+    shape = w["id"] % 4
+    call = cb; kwn = {}
+    if shape == 1:
+      import functools
+      call = functools.partial(cb); kwn = dict(name="partial%d" % w["id"])
+      self.rep.count("callbacks_without_source")
+    elif shape == 2:
+      class Callable (object):
+        def __call__ (self_, *a, **k): return cb(*a, **k)
+      call = Callable(); kwn = dict(name="callable%d" % w["id"])
+      self.rep.count("callbacks_without_source")
     self.api("call_when_ready",
-             lambda: self.core.call_when_ready(cb, d, args=(w["id"],),
-                                               kw={"z": 1}))
+             lambda: self.core.call_when_ready(call, d, args=(w["id"],),
+                                               kw={"z": 1}, **kwn))
 
   def do_ltd (self, comps, extra, attrs):
     rdv = self
